@@ -111,6 +111,6 @@ impl TableRefresh {
 // Verification harnesses (compiled only by `cargo kani`; inert otherwise).
 #[cfg(kani)]
 #[allow(dead_code, unused_imports)]
-mod verif {
+pub(crate) mod verif {
     include!(concat!(env!("BTDHT_VERIF"), "/harness/refresh.rs"));
 }
